@@ -236,6 +236,16 @@ func genCount(r *vgen.Rand) int {
 	return 0
 }
 
+// manyAttrs: n small attributes with distinct keys (a hidden cap on a collection in a transform
+// would drop some of them: 129 / 130 sit just above the SDK's default limits of 128).
+func manyAttrs(n int) []attribute.KeyValue {
+	out := make([]attribute.KeyValue, n)
+	for i := range out {
+		out[i] = attribute.Int(fmt.Sprintf("k%03d", i), i)
+	}
+	return out
+}
+
 func genU64(r *vgen.Rand) uint64 {
 	switch r.Intn(6) {
 	case 0:
